@@ -202,7 +202,50 @@ def run_silent_tcp(R):
     return vio, len(ids)
 
 
+def run_overlap(ncallers, connect_latency_steps):
+    """Several tasks call read_runtime_data() on ONE Modbus/TCP inverter object at the same time (they share the
+    command objects the inverter builds once): every transmission on the wire carries a non-zero transaction id
+    different from the previous transmission's."""
+    import asyncio
+    from ..configs import make_rig
+    cfg = dict(family='ET', tag='ETU', power=3000, refused=(), battery_mode=0)
+    r = make_rig(cfg, 'tcp', R=1)
+    r.call(r.inv.read_device_info)
+    n0 = len(r.dev.sent)
+
+    async def main():
+        async def one(i):
+            if i and connect_latency_steps:
+                await asyncio.sleep(0.0005 * connect_latency_steps)
+            try:
+                await r.inv.read_runtime_data()
+            except Exception:  # noqa: BLE001
+                pass
+        await asyncio.gather(*[one(i) for i in range(ncallers)])
+    r.loop.kern.ntx = 0
+    r.loop.kern.tx_cap = 4000
+    r.loop.run(main())
+    ids = [d[:2] for _, _, d in r.dev.sent[n0:]]
+    vio = []
+    for a, b in zip(ids, ids[1:]):
+        if a == b:
+            vio.append(('tx-id-changes/overlapping-calls', f'two consecutive transmissions carry id {a.hex()} ({len(ids)} transmissions)'))
+            break
+    if any(i == b'\0\0' for i in ids):
+        vio.append(('tx-id-nonzero/overlapping-calls', 'id 0 on the wire'))
+    if r.dev.bad:
+        vio.append(('tx-frame-parses/overlapping-calls', str(r.dev.bad[0][1])))
+    return vio, len(ids)
+
+
 def run(tier, seed, rep):
+    novl = 0
+    for nc in (2, 3):
+        for steps in (0, 1, 3):
+            vio, k = run_overlap(nc, steps)
+            novl += k
+            for clause, cause in vio:
+                rep.add(clause, clause.split('/')[0], dict(part='overlap', callers=nc, steps=steps), dict(cause=cause))
     jobs = []
     for name in CTORS:
         if name.endswith('read') and not name.startswith('aa55'):
@@ -233,7 +276,7 @@ def run(tier, seed, rep):
         ntx += n
         for clause, cause in vio:
             rep.add(f'{clause}/silent-peer', clause, dict(part='silent', R=R), dict(cause=cause))
-    cov = dict(evaluations=total + ntx, distinct_nontrivial=total,
+    cov = dict(evaluations=total + ntx + novl, distinct_nontrivial=total, overlapping_call_transmissions=novl,
                rule='every request is built by the real command classes and parsed back by the strict independent '
                     'parser (CRC recomputed bitwise, MBAP protocol id / length field, AA55 header / length byte / sum): '
                     'all unit addresses x boundary registers x boundary counts, all 65536 registers x {F7,7F} x {1,125}, '
@@ -257,6 +300,9 @@ def replay(r):
         vio = {}
         one(vio, r['ctor'], tuple(a))
         return dict(violations=[(k, v[0]['detail']) for k, v in vio.items()])
+    if r['part'] == 'overlap':
+        vio, k = run_overlap(r['callers'], r['steps'])
+        return dict(transmissions=k, violations=vio)
     if r['part'] == 'tx':
         n, ns, vio = tx_cycle(r['start'])
         return dict(transmissions=n, states=ns, violations=vio)
